@@ -1,0 +1,7 @@
+//go:build !verif
+
+package ch
+
+import "context"
+
+func verifAt(context.Context, *Client, string, ...error) {}
